@@ -76,54 +76,54 @@ PROPS["C10"] = {
         {"pkg": "types", "gen": TYPES_GEN, "run": "^VH_C10_DEC_V2Transaction$",
          "params": {"quick": {"N": 24, "alloc_limit": 255, "lazy_make": 1}, "thorough": {"N": 40, "alloc_limit": 255, "lazy_make": 1}},
          "flags": {"quick": ["-maxlen", "256", "-maxpaths", "200000"], "thorough": ["-maxlen", "256", "-maxpaths", "1000000"]}},
-        {"pkg": "consensus", "gen": CONS_GEN, "run": "^VH_C10_DEC_",
+        {"pkg": "consensus", "gen": CONS_GEN, "run": "^VH_C10_DEC_", "skip": "_(ElementAccumulator|State)$",
          "params": {"quick": {"N": 40, "alloc_limit": 255, "lazy_make": 1}, "thorough": {"N": 64, "alloc_limit": 255, "lazy_make": 1}},
          "flags": {"quick": ["-maxlen", "256", "-maxpaths", "200000"], "thorough": ["-maxlen", "256", "-maxpaths", "400000"]}},
         {"pkg": "consensus", "harness": C10_VH, "run": "^VH_C10_ValidateV1$", "params": {"quick": {"mask": 643, "weight_uf": 1, "v1cur_fixed": 1, "tax_uf": 1, "spidx_uf": 1, "cflen": 1, "int_mode": 1, "cur_lift": 1}, "thorough": {"mask": 643, "weight_uf": 1, "v1cur_fixed": 1, "tax_uf": 1, "spidx_uf": 1, "cflen": 1, "int_mode": 1, "cur_lift": 1}},
          "flags": {"quick": ["-timeout", "1000", "-maxpaths", "100000"], "thorough": ["-timeout", "1000", "-maxpaths", "400000"]},
-         "must_reach": {"VH_C10_ValidateV1": ["accepted", "applied", "rejected"]}},
+         "must_reach": {"VH_C10_ValidateV1": ["rejected", "accepted", "applied"]}},
         {"pkg": "consensus", "harness": C10_VH, "run": "^VH_C10_ValidateV1$", "params": {"quick": {"mask": 519, "weight_uf": 1, "v1cur_fixed": 1, "tax_uf": 1, "spidx_uf": 1, "cflen": 1, "int_mode": 1, "cur_lift": 1}, "thorough": {"mask": 519, "weight_uf": 1, "v1cur_fixed": 1, "tax_uf": 1, "spidx_uf": 1, "cflen": 1, "int_mode": 1, "cur_lift": 1}},
          "flags": {"quick": ["-timeout", "1000", "-maxpaths", "100000"], "thorough": ["-timeout", "1000", "-maxpaths", "400000"]},
-         "must_reach": {"VH_C10_ValidateV1": ["accepted", "applied", "rejected"]}},
+         "must_reach": {"VH_C10_ValidateV1": ["rejected"]}},
         {"pkg": "consensus", "harness": C10_VH, "run": "^VH_C10_ValidateV1$", "params": {"quick": {"mask": 769, "weight_uf": 1, "v1cur_fixed": 1, "tax_uf": 1, "spidx_uf": 1, "cflen": 1, "int_mode": 1, "cur_lift": 1}, "thorough": {"mask": 769, "weight_uf": 1, "v1cur_fixed": 1, "tax_uf": 1, "spidx_uf": 1, "cflen": 1, "int_mode": 1, "cur_lift": 1}},
          "flags": {"quick": ["-timeout", "1000", "-maxpaths", "100000"], "thorough": ["-timeout", "1000", "-maxpaths", "400000"]},
-         "must_reach": {"VH_C10_ValidateV1": ["accepted", "applied", "rejected"]}},
+         "must_reach": {"VH_C10_ValidateV1": ["rejected"]}},
         {"pkg": "consensus", "harness": C10_VH, "run": "^VH_C10_ValidateV1$", "params": {"quick": {"mask": 16, "weight_uf": 1, "v1cur_fixed": 1, "tax_uf": 1, "spidx_uf": 1, "cflen": 1, "int_mode": 1, "cur_lift": 1}, "thorough": {"mask": 16, "weight_uf": 1, "v1cur_fixed": 1, "tax_uf": 1, "spidx_uf": 1, "cflen": 1, "int_mode": 1, "cur_lift": 1}},
          "flags": {"quick": ["-timeout", "1000", "-maxpaths", "100000"], "thorough": ["-timeout", "1000", "-maxpaths", "400000"]},
-         "must_reach": {"VH_C10_ValidateV1": ["accepted", "applied", "rejected"]}},
+         "must_reach": {"VH_C10_ValidateV1": ["rejected"]}},
         {"pkg": "consensus", "harness": C10_VH, "run": "^VH_C10_ValidateV1$", "params": {"quick": {"mask": 521, "weight_uf": 1, "v1cur_fixed": 1, "tax_uf": 1, "spidx_uf": 1, "cflen": 1, "int_mode": 1, "cur_lift": 1}, "thorough": {"mask": 521, "weight_uf": 1, "v1cur_fixed": 1, "tax_uf": 1, "spidx_uf": 1, "cflen": 1, "int_mode": 1, "cur_lift": 1}},
          "flags": {"quick": ["-timeout", "1000", "-maxpaths", "100000"], "thorough": ["-timeout", "1000", "-maxpaths", "400000"]},
-         "must_reach": {"VH_C10_ValidateV1": ["accepted", "applied", "rejected"]}, "thorough_only": True},
+         "must_reach": {"VH_C10_ValidateV1": ["rejected"]}, "thorough_only": True},
         {"pkg": "consensus", "harness": C10_VH, "run": "^VH_C10_ValidateV1$", "params": {"quick": {"mask": 608, "weight_uf": 1, "v1cur_fixed": 1, "tax_uf": 1, "spidx_uf": 1, "cflen": 1, "int_mode": 1, "cur_lift": 1}, "thorough": {"mask": 608, "weight_uf": 1, "v1cur_fixed": 1, "tax_uf": 1, "spidx_uf": 1, "cflen": 1, "int_mode": 1, "cur_lift": 1}},
          "flags": {"quick": ["-timeout", "1000", "-maxpaths", "100000"], "thorough": ["-timeout", "1000", "-maxpaths", "400000"]},
-         "must_reach": {"VH_C10_ValidateV1": ["accepted", "applied", "rejected"]}, "thorough_only": True},
+         "must_reach": {"VH_C10_ValidateV1": ["rejected"]}, "thorough_only": True},
         {"pkg": "consensus", "harness": C10_VH, "run": "^VH_C10_ValidateV1$", "params": {"quick": {"mask": 611, "weight_uf": 1, "v1cur_fixed": 1, "tax_uf": 1, "spidx_uf": 1, "cflen": 1, "int_mode": 1, "cur_lift": 1}, "thorough": {"mask": 611, "weight_uf": 1, "v1cur_fixed": 1, "tax_uf": 1, "spidx_uf": 1, "cflen": 1, "int_mode": 1, "cur_lift": 1}},
          "flags": {"quick": ["-timeout", "1000", "-maxpaths", "100000"], "thorough": ["-timeout", "1000", "-maxpaths", "400000"]},
-         "must_reach": {"VH_C10_ValidateV1": ["accepted", "applied", "rejected"]}, "thorough_only": True},
+         "must_reach": {"VH_C10_ValidateV1": ["rejected"]}, "thorough_only": True},
         {"pkg": "consensus", "harness": C10_VH, "run": "^VH_C10_ValidateV2$", "params": {"quick": {"mask": 3, "weight_uf": 1, "v1cur_fixed": 1, "tax_uf": 1, "spidx_uf": 1, "cflen": 1, "int_mode": 1, "cur_lift": 1}, "thorough": {"mask": 3, "weight_uf": 1, "v1cur_fixed": 1, "tax_uf": 1, "spidx_uf": 1, "cflen": 1, "int_mode": 1, "cur_lift": 1}},
          "flags": {"quick": ["-timeout", "1000", "-maxpaths", "100000"], "thorough": ["-timeout", "1000", "-maxpaths", "400000"]},
-         "must_reach": {"VH_C10_ValidateV2": ["accepted", "applied", "rejected"]}},
+         "must_reach": {"VH_C10_ValidateV2": ["rejected", "accepted", "applied"]}},
         {"pkg": "consensus", "harness": C10_VH, "run": "^VH_C10_ValidateV2$", "params": {"quick": {"mask": 12, "weight_uf": 1, "v1cur_fixed": 1, "tax_uf": 1, "spidx_uf": 1, "cflen": 1, "int_mode": 1, "cur_lift": 1}, "thorough": {"mask": 12, "weight_uf": 1, "v1cur_fixed": 1, "tax_uf": 1, "spidx_uf": 1, "cflen": 1, "int_mode": 1, "cur_lift": 1}},
          "flags": {"quick": ["-timeout", "1000", "-maxpaths", "100000"], "thorough": ["-timeout", "1000", "-maxpaths", "400000"]},
-         "must_reach": {"VH_C10_ValidateV2": ["accepted", "applied", "rejected"]}},
+         "must_reach": {"VH_C10_ValidateV2": ["rejected"]}},
         {"pkg": "consensus", "harness": C10_VH, "run": "^VH_C10_ValidateV2$", "params": {"quick": {"mask": 16, "weight_uf": 1, "v1cur_fixed": 1, "tax_uf": 1, "spidx_uf": 1, "cflen": 1, "int_mode": 1, "cur_lift": 1}, "thorough": {"mask": 16, "weight_uf": 1, "v1cur_fixed": 1, "tax_uf": 1, "spidx_uf": 1, "cflen": 1, "int_mode": 1, "cur_lift": 1}},
          "flags": {"quick": ["-timeout", "1000", "-maxpaths", "100000"], "thorough": ["-timeout", "1000", "-maxpaths", "400000"]},
-         "must_reach": {"VH_C10_ValidateV2": ["accepted", "applied", "rejected"]}},
+         "must_reach": {"VH_C10_ValidateV2": ["rejected"]}},
         {"pkg": "consensus", "harness": C10_VH, "run": "^VH_C10_ValidateV2$", "params": {"quick": {"mask": 32, "weight_uf": 1, "v1cur_fixed": 1, "tax_uf": 1, "spidx_uf": 1, "cflen": 1, "int_mode": 1, "cur_lift": 1}, "thorough": {"mask": 32, "weight_uf": 1, "v1cur_fixed": 1, "tax_uf": 1, "spidx_uf": 1, "cflen": 1, "int_mode": 1, "cur_lift": 1}},
          "flags": {"quick": ["-timeout", "1000", "-maxpaths", "100000"], "thorough": ["-timeout", "1000", "-maxpaths", "400000"]},
-         "must_reach": {"VH_C10_ValidateV2": ["accepted", "applied", "rejected"]}},
+         "must_reach": {"VH_C10_ValidateV2": ["rejected"]}},
         {"pkg": "consensus", "harness": C10_VH, "run": "^VH_C10_ValidateV2$", "params": {"quick": {"mask": 128, "weight_uf": 1, "v1cur_fixed": 1, "tax_uf": 1, "spidx_uf": 1, "cflen": 1, "int_mode": 1, "cur_lift": 1}, "thorough": {"mask": 128, "weight_uf": 1, "v1cur_fixed": 1, "tax_uf": 1, "spidx_uf": 1, "cflen": 1, "int_mode": 1, "cur_lift": 1}},
          "flags": {"quick": ["-timeout", "1000", "-maxpaths", "100000"], "thorough": ["-timeout", "1000", "-maxpaths", "400000"]},
-         "must_reach": {"VH_C10_ValidateV2": ["accepted", "applied", "rejected"]}},
+         "must_reach": {"VH_C10_ValidateV2": ["rejected"]}},
         {"pkg": "consensus", "harness": C10_VH, "run": "^VH_C10_ValidateV2$", "params": {"quick": {"mask": 769, "weight_uf": 1, "v1cur_fixed": 1, "tax_uf": 1, "spidx_uf": 1, "cflen": 1, "int_mode": 1, "cur_lift": 1}, "thorough": {"mask": 769, "weight_uf": 1, "v1cur_fixed": 1, "tax_uf": 1, "spidx_uf": 1, "cflen": 1, "int_mode": 1, "cur_lift": 1}},
          "flags": {"quick": ["-timeout", "1000", "-maxpaths", "100000"], "thorough": ["-timeout", "1000", "-maxpaths", "400000"]},
-         "must_reach": {"VH_C10_ValidateV2": ["accepted", "applied", "rejected"]}},
+         "must_reach": {"VH_C10_ValidateV2": ["rejected"]}},
         {"pkg": "consensus", "harness": C10_VH, "run": "^VH_C10_ValidateV2$", "params": {"quick": {"mask": 65, "weight_uf": 1, "v1cur_fixed": 1, "tax_uf": 1, "spidx_uf": 1, "cflen": 1, "int_mode": 1, "cur_lift": 1}, "thorough": {"mask": 65, "weight_uf": 1, "v1cur_fixed": 1, "tax_uf": 1, "spidx_uf": 1, "cflen": 1, "int_mode": 1, "cur_lift": 1}},
          "flags": {"quick": ["-timeout", "1000", "-maxpaths", "100000"], "thorough": ["-timeout", "1000", "-maxpaths", "400000"]},
-         "must_reach": {"VH_C10_ValidateV2": ["accepted", "applied", "rejected"]}, "thorough_only": True},
+         "must_reach": {"VH_C10_ValidateV2": ["rejected"]}, "thorough_only": True},
         {"pkg": "consensus", "harness": C10_VH, "run": "^VH_C10_ValidateV2$", "params": {"quick": {"mask": 67, "weight_uf": 1, "v1cur_fixed": 1, "tax_uf": 1, "spidx_uf": 1, "cflen": 1, "int_mode": 1, "cur_lift": 1}, "thorough": {"mask": 67, "weight_uf": 1, "v1cur_fixed": 1, "tax_uf": 1, "spidx_uf": 1, "cflen": 1, "int_mode": 1, "cur_lift": 1}},
          "flags": {"quick": ["-timeout", "1000", "-maxpaths", "100000"], "thorough": ["-timeout", "1000", "-maxpaths", "400000"]},
-         "must_reach": {"VH_C10_ValidateV2": ["accepted", "applied", "rejected"]}, "thorough_only": True},
+         "must_reach": {"VH_C10_ValidateV2": ["rejected"]}, "thorough_only": True},
     ],
     "tv_runs": {"quick": 0, "thorough": 0},
     "bounds": {"quick": "validators: transaction shapes with the component groups listed in evidence.coverage.runs (1 element per populated component; v1 masks 643/519/769/16, v2 masks 3/12/16/32/128/769), fully symbolic contents, state, network parameters and supplement; decoders: arbitrary input of N bytes, N=40 (policy-bearing objects 20, v1 Transaction/V1Block 100, V2Transaction 24); every loop unwound to completion (path/loop budgets are unwinding assertions); allocation per site <= max(N,255) elements",
@@ -308,7 +308,7 @@ for pid, txt in [("C01", "conservation equations on the diffs produced by the re
 PROPS["C13"] = {
     "runs": [
         {"pkg": "consensus", "harness": ["harness/c13/c13.go", "harness/common/cons_world.go", "harness/common/cons_support.go"], "run": "^VH_C13_(WorkAddSubCmp|ValidateHeader|HeavierAsymmetric)$",
-         "params": {"quick": {"work_lift": 0, "int_mode": 1, "target_uf": 1, "time_lift": 1, "ntimestamps": 3}, "thorough": {"work_lift": 0, "int_mode": 1, "target_uf": 1, "time_lift": 1, "ntimestamps": 4}},
+         "params": {"quick": {"work_lift": 0, "int_mode": 1, "target_uf": 1, "time_lift": 1, "ntimestamps": 2}, "thorough": {"work_lift": 0, "int_mode": 1, "target_uf": 1, "time_lift": 1, "ntimestamps": 4}},
          "flags": {"quick": ["-timeout", "5000"], "thorough": ["-timeout", "20000"]},
          "must_reach": {"VH_C13_WorkAddSubCmp": ["end"], "VH_C13_ValidateHeader": ["accepted"], "VH_C13_HeavierAsymmetric": ["end"]},
          "tv_harnesses": ["VH_C13_WorkAddSubCmp"]},
@@ -343,4 +343,22 @@ PROPS["C16"] = {
 MANIFEST_TEXT["C16"] = {
     "text": "Bounded model checking under the ideal-hash model: MetaRoot and blake2b.Accumulator against a plainly written RFC-6962 tree; every builder output accepted by its verifier with the right old/new roots (term identities for all hash values at once); soundness of range, append and free proofs decided by the solver over symbolic proof hashes and claimed data, including wrong proof lengths.",
     "note": "Partial claim: sector-level hashing, streaming readers and SIMD paths are outside (not encodable). Bounds n <= 8 (16).",
+}
+
+PROPS["C17"] = {
+    "runs": [
+        {"pkg": "rhp/v4", "harness": ["harness/c17/c17.go"], "run": "^VH_C17_", "params": {"quick": {"mul_uf": 1, "tax_uf": 1, "int_mode": 1, "cur_lift": 1}, "thorough": {"mul_uf": 1, "tax_uf": 1, "int_mode": 1, "cur_lift": 1}},
+         "flags": {"quick": ["-timeout", "2000"], "thorough": ["-timeout", "20000"]},
+         "must_reach": {"VH_C17_PayWithContract": ["paid", "insufficient"], "VH_C17_Renew": ["end"]}, "tv_harnesses": ["VH_C17_PayWithContract"]},
+    ],
+    "tv_runs": {"quick": 2, "thorough": 6},
+    "bounds": {"quick": "one constructor step from an arbitrary consensus-valid v2 contract (values < 2^104): PayWithContract (all Revise* constructors go through it) with arbitrary usage; RenewContract + RenewalCost with arbitrary prices and parameters whose price*size*duration products do not overflow", "thorough": "same"},
+    "outside": ["RefreshContract* and RefreshCost, NewContract/ContractCost, v1-era (rhp/v2, rhp/v3) payout/tax equations: not built in this session", "products price*size*duration are uninterpreted (the identities checked do not depend on their value); paths where they overflow 2^128 panic in Currency.Mul64 and are outside the claim",
+                "request Validate methods are not executed; the height relations they guarantee are assumed"],
+    "stubs": ["math/bits.Mul64 of two symbolic operands: uninterpreted product", "V2FileContractTax: uninterpreted tax(value) <= value", "Currency Add/Sub/Cmp lifted to 128 bits; integer rendering"],
+    "assumptions": COMMON_ASSUME,
+}
+MANIFEST_TEXT["C17"] = {
+    "text": "Bounded model checking, one inductive step over call sequences: from an arbitrary consensus-valid contract the real PayWithContract / RenewContract / RenewalCost are executed symbolically and the solver (linear integer rendering of the 128-bit currency arithmetic) proves the conservation identities, the exact charging of usage and risked collateral, clean failure iff funds are insufficient, rollover bounds, and that the results satisfy the consensus value relations.",
+    "note": "Partial claim (refresh, formation and v1-era constructors not covered). Trusted: z3, engine, uninterpreted products/tax.",
 }
